@@ -21,13 +21,16 @@ Lemma calib_creader :
                        | Some a, Some b => Nat.eqb (List.length (classes a)) (List.length (classes b)) | _, _ => false end) shipped_W = true.
 Proof. split; vm_compute; reflexivity. Qed.
 
-(* how much of the shipped project lies in the domain of the text-level theorem parse_top_q (free text such as HTML / CSS
-   documentation is inside it since the reader is quote-aware: K-C19-6).  The one element outside is the association
-   OUDfaI6GAqAA8xe8 of TestClassDiagram, whose NAME holds a colon (Const: This should appear in constructor): the reader cuts the
-   header  id:name:type  at every colon, so its name / type entries are not the ones top_pv states (headok excludes that). *)
+(* how much of the shipped project lies in the domain of the text-level theorem (free text such as HTML / CSS documentation is
+   inside it since the reader is quote-aware: K-C19-6).  With parse_top_q (no colon in element names) one element is outside:
+   the association OUDfaI6GAqAA8xe8 of TestClassDiagram, whose NAME holds a colon (Const: This should appear in constructor) --
+   the reader cuts the header  id:name:type  at every colon; parse_top_c covers row names with colons (top_pv_c states which
+   entries the header gives then): all 39 + 49 blobs are inside. *)
 Definition in_text_domain (n : wnode) : bool := wf_node n && nbq_node n && quote_ok (print_node n).
+Definition in_text_domain_c (n : wnode) : bool := wf_top n && nbq_node n && quote_ok (print_node n).
 Lemma calib_domain :
-  map (fun W => (List.length (all_nodes W), List.length (filter in_text_domain (all_nodes W)))) shipped_W = [(39, 39); (49, 48)]
+  map (fun W => (List.length (all_nodes W), List.length (filter in_text_domain_c (all_nodes W)), List.length (filter in_text_domain (all_nodes W)))) shipped_W
+  = [(39, 39, 39); (49, 49, 48)]
   /\ flat_map (fun W => map (fun n => (node_id n, node_name n)) (filter (fun n => negb (in_text_domain n)) (all_nodes W))) shipped_W
      = [("OUDfaI6GAqAA8xe8", Some "Const: This should appear in constructor")].
 Proof. split; vm_compute; reflexivity. Qed.
@@ -51,6 +54,6 @@ Fixpoint pv_eqb (a b : UmlBlob.pv) {struct a} : bool :=
   | _, _ => false
   end.
 Lemma calib_parse :
-  forallb (fun W => forallb (fun n => match parse_blob (py_str_bytes (print_node n)) with Some v => pv_eqb v (top_pv n) | None => false end)
-                            (filter in_text_domain (all_nodes W))) shipped_W = true.
+  forallb (fun W => forallb (fun n => match parse_blob (py_str_bytes (print_node n)) with Some v => pv_eqb v (top_pv_c n) | None => false end)
+                            (filter in_text_domain_c (all_nodes W))) shipped_W = true.
 Proof. vm_compute. reflexivity. Qed.
